@@ -37,6 +37,8 @@ pub enum MOp {
     Stash(u8, u8, u8), Fetch(u8, u8, u8),
     IsDead(u8), IsDeadW(u8), Resurrect(u8), ResurrectW(u8, u8),
     Move(u8, u8), Clear(u8), ClearW(u8), PtrEq(u8, u8),
+    /// Gc::new of a value that already holds pointers: (dest reg, kind, strong regs, weak regs)
+    AllocW(u8, Kind, [Option<u8>; 3], [Option<u8>; 2]),
 }
 
 #[derive(Copy, Clone, Debug, PartialEq, Eq, Hash)]
@@ -113,6 +115,7 @@ impl MOp {
             Clear(r) => format!("clear {r}"),
             ClearW(w) => format!("clearw {w}"),
             PtrEq(a, b) => format!("ptreq {a} {b}"),
+            AllocW(r, k, s, w) => format!("allocw {r} {} {} {} {} {} {}", k.text(), o(s[0]), o(s[1]), o(s[2]), o(w[0]), o(w[1])),
         }
     }
     pub fn parse(t: &[&str]) -> MOp {
@@ -148,6 +151,7 @@ impl MOp {
             "clear" => Clear(n(1)),
             "clearw" => ClearW(n(1)),
             "ptreq" => PtrEq(n(1), n(2)),
+            "allocw" => AllocW(n(1), Kind::parse(t[2]), [po(t[3]), po(t[4]), po(t[5])], [po(t[6]), po(t[7])]),
             x => panic!("bad micro op {x}"),
         }
     }
